@@ -70,7 +70,8 @@ def run_worker(pid, tier, seed, shard, nshards, outdir, timeout):
                     return json.load(f), None
             err = f"shard {shard} exit {p.returncode}: {p.stderr[-1500:]}"
         except subprocess.TimeoutExpired:
-            err = f"shard {shard} watchdog ({timeout}s)"
+            # a deterministic hang would only repeat: no retry
+            return None, f"shard {shard} watchdog ({timeout}s)"
         if attempt == 0:
             continue
     return None, err
@@ -93,7 +94,7 @@ def main(argv):
     t0 = time.time()
 
     nshards = mod.nshards(tier)
-    timeout = getattr(mod, "SHARD_TIMEOUT", {"quick": 900, "thorough": 5400})[tier]
+    timeout = getattr(mod, "SHARD_TIMEOUT", {"quick": 400, "thorough": 5400})[tier]
     outdir = os.path.join(VERIF, ".build", "run", f"{pid}-{os.getpid()}")
     os.makedirs(outdir, exist_ok=True)
     maxpar = int(os.environ.get("VF_JOBS", getattr(mod, "MAX_PARALLEL", 16)))
